@@ -64,6 +64,16 @@ func mapContract(n datamodel.Node, alphabet []string, viol func(sig, detail stri
 	if count != length {
 		viol("contract-length", fmt.Sprintf("iteration yielded %d pairs, Length()=%d", count, length))
 	}
+	// driven by the count (Next() exactly Length() times, Done() not asked in
+	// between) the iterator yields the same pairs and is then done
+	if count == length && len(seq) == int(count) {
+		byCount, problem := iterateByCount(n, int(count))
+		if problem != "" {
+			viol("contract-iter-by-count", problem)
+		} else if fmt.Sprint(byCount) != fmt.Sprint(seq) {
+			viol("contract-iter-by-count", fmt.Sprintf("Next() x %d yields %v, the Done()-guarded loop %v", count, clipKVs(byCount), clipKVs(seq)))
+		}
+	}
 	// one more Next after Done must be an over-read error, not a panic
 	if p, pv := core.Guard(func() {
 		_, _, err := it.Next()
@@ -327,6 +337,46 @@ func runC15(r *core.Run) {
 			})
 		}); p {
 			r.Violate("panic contract shard", fmt.Sprintf("%s: %v", desc, pv), nil)
+		}
+		// a transient fault does not change what the node is: with one shard
+		// block unavailable Length / iteration / the preload fail or come up
+		// short; once the block is back the same node obeys the contract
+		// again (nothing learned from the failed walk may be remembered)
+		if i%3 != 0 {
+			return
+		}
+		for _, blk := range s.Cids() {
+			if blk.Equals(root) || blk.Prefix().Codec != cid.DagProtobuf {
+				continue
+			}
+			for _, first := range []string{"Length", "iterate", "lookups"} {
+				n, err := openVia("Reify", ls, rn)
+				if err != nil {
+					break
+				}
+				s.Missing[string(blk.Hash())] = store.NotFound
+				core.Guard(func() {
+					switch first {
+					case "Length":
+						n.Length()
+					case "iterate":
+						iterateMap(n, 4*len(names)+16)
+					case "lookups":
+						for _, k := range names {
+							n.LookupByString(k)
+						}
+					}
+				})
+				delete(s.Missing, string(blk.Hash()))
+				r.Transitions.Add(1)
+				if p, pv := core.Guard(func() {
+					mapContract(n, append(append([]string{}, probes...), "nope", ""), func(sig, detail string) {
+						r.Violate(sig+" shard after-transient-fault", fmt.Sprintf("%s: after a %s attempt while shard block %s was unavailable (now available again): %s", desc, first, short(blk), detail), nil)
+					})
+				}); p {
+					r.Violate("panic contract shard after-transient-fault", fmt.Sprintf("%s: %v", desc, pv), nil)
+				}
+			}
 		}
 	})
 }
